@@ -661,6 +661,83 @@ func refBatch(prev *rset, batch []pv, allowDeletes bool) (ok bool, members []rv)
 	return true, members
 }
 
+// refUpdate: the specified result of applying a (valid) batch, priorities included, in exact
+// integer arithmetic: existing validators keep their priority, a NEW validator enters with
+// -(P + floor(P/8)) where P is the total power with the updates applied but before the removals;
+// then rescale into the window 2*total', centre, canonical order.
+func refUpdate(prev *rset, batch []pv) *rset {
+	type ent struct{ power, prio *big.Int }
+	cur := map[string]*ent{}
+	P := new(big.Int)
+	for _, v := range prev.vals {
+		cur[v.addr] = &ent{new(big.Int).Set(v.power), new(big.Int).Set(v.prio)}
+		P.Add(P, v.power)
+	}
+	for _, b := range batch {
+		if b.power == 0 {
+			continue
+		}
+		if e, ok := cur[b.addr]; ok {
+			P.Sub(P, e.power)
+		}
+		P.Add(P, big.NewInt(b.power))
+	}
+	pen := new(big.Int).Add(P, new(big.Int).Div(P, big.NewInt(8)))
+	pen.Neg(pen)
+	for _, b := range batch {
+		if b.power == 0 {
+			delete(cur, b.addr)
+		} else if e, ok := cur[b.addr]; ok {
+			e.power = big.NewInt(b.power)
+		} else {
+			cur[b.addr] = &ent{big.NewInt(b.power), new(big.Int).Set(pen)}
+		}
+	}
+	out := &rset{}
+	for a, e := range cur {
+		out.vals = append(out.vals, rv{a, e.power, e.prio})
+	}
+	sort.Slice(out.vals, func(i, j int) bool { return out.vals[i].addr < out.vals[j].addr })
+	if len(out.vals) > 0 {
+		out.refNormalize()
+	}
+	sort.SliceStable(out.vals, func(i, j int) bool {
+		if c := out.vals[i].power.Cmp(out.vals[j].power); c != 0 {
+			return c > 0
+		}
+		return out.vals[i].addr < out.vals[j].addr
+	})
+	return out
+}
+
+// prioFinding classifies a difference between the specified and the observed priorities after
+// an update.
+func prioFinding(where string, prev *rset, batch []pv, want, got *rset) core.Finding {
+	fp := where + ".priorities-differ-from-specification"
+	old := map[string]bool{}
+	for _, v := range prev.vals {
+		old[v.addr] = true
+	}
+	for i, v := range got.vals {
+		if !old[v.addr] && i < len(want.vals) && want.vals[i].addr == v.addr && v.prio.Cmp(want.vals[i].prio) != 0 {
+			fp = where + ".new-validator-priority-not-minus-1.125-total"
+			if v.prio.Sign() > 0 && want.vals[i].prio.Sign() < 0 {
+				fp = where + ".new-validator-priority-overflowed"
+			}
+			break
+		}
+	}
+	return core.Finding{Fingerprint: fp, Desc: fmt.Sprintf("batch %s on %s: specified %s, got %s", fmtPV(batch), prev, want, got)}
+}
+
+func fmtPV(l []pv) string {
+	p := make([]string, len(l))
+	for i, v := range l {
+		p[i] = fmt.Sprintf("%s:%d", v.addr, v.power)
+	}
+	return strings.Join(p, ",")
+}
+
 func checkWellformed(where string, s *rset, afterUpdate bool) []core.Finding {
 	var fs []core.Finding
 	add := func(fp, d string) { fs = append(fs, core.Finding{Fingerprint: where + "." + fp, Desc: d + ": " + s.String()}) }
@@ -752,6 +829,8 @@ func oracle(c core.Case, out []string) []core.Finding {
 				}
 				if !sameVals(&rset{vals: members}, s, false) {
 					fs = append(fs, core.Finding{Fingerprint: "valset.NewValidatorSet.members-differ-from-map", Desc: "got " + s.String()})
+				} else if want := refIncrement(refUpdate(&rset{}, l), 1); !sameSet(want, s) {
+					fs = append(fs, core.Finding{Fingerprint: "valset.NewValidatorSet.priorities-differ-from-specification", Desc: "want " + want.String() + " got " + s.String()})
 				}
 				fs = append(fs, checkWellformed("valset.NewValidatorSet", s, false)...)
 			} else if strings.HasPrefix(o, "panic-") {
@@ -800,6 +879,8 @@ func oracle(c core.Case, out []string) []core.Finding {
 					fs = append(fs, core.Finding{Fingerprint: "valset.UpdateWithChangeSet.accepts-invalid-batch", Desc: "accepted " + m["ch"] + " on " + cur.String()})
 				} else if !sameVals(&rset{vals: members}, after, false) {
 					fs = append(fs, core.Finding{Fingerprint: "valset.UpdateWithChangeSet.members-differ-from-map", Desc: "batch " + m["ch"] + " on " + cur.String() + " gave " + after.String()})
+				} else if want := refUpdate(cur, l); !sameVals(want, after, true) {
+					fs = append(fs, prioFinding("valset.UpdateWithChangeSet", cur, l, want, after))
 				}
 				fs = append(fs, checkWellformed("valset.UpdateWithChangeSet", after, true)...)
 			}
@@ -903,6 +984,9 @@ func oracle(c core.Case, out []string) []core.Finding {
 					fs = append(fs, core.Finding{Fingerprint: "state.updateState.accepts-invalid-batch", Desc: "accepted " + m["ch"]})
 				} else if !sameVals(&rset{vals: members}, s, false) {
 					fs = append(fs, core.Finding{Fingerprint: "state.updateState.members-differ-from-map", Desc: "got " + s.String()})
+				} else if wu := refUpdate(prev, l); !sameSet(refIncrement(wu, 1), s) {
+					f := prioFinding("state.updateState", prev, l, refIncrement(wu, 1), s)
+					fs = append(fs, f)
 				}
 			}
 		case "prune":
